@@ -23,13 +23,12 @@ KMP_IF = mut("fallback-if-instead-of-while", "string.c", "while (j && pat[j] != 
              "if (j && pat[j] != pat[i]) j = lookup[j - 1];", "C17")
 unit("str.kmp.init.table",
      "kmp_init: raises for the empty pattern; otherwise records text/pattern, starts at 0 and lookup[k] is the longest proper border of pat[0..k] (hence 0 <= lookup[k] <= k) for every k; every read inside the pattern, every write inside the table",
-     "h_kmp_init_table", cls="bounded", bound="every pattern of at most 6 bytes (all byte contents)",
-     mode="plain", src=["string.c"], harness=["str_kmp.c"], unwind=8, unwindset={"calloc.0": 26},
+     "h_kmp_init_table", cls="bounded", bound="every pattern of at most 8 bytes (all byte contents)",
+     mode="plain", src=["string.c"], harness=["str_kmp.c"], unwind=10, unwindset={"calloc.0": 34},
      functions=["kmp_init"],
      assumes=["calloc model (str_kmp.c): zero-filled fresh block of exactly n*sz bytes, or NULL"],
      mutants=[KMP_IF,
-              mut("no-increment", "string.c", "if (pat[j] == pat[i]) j++;\n            lookup[i] = j;", "lookup[i] = j;\n            if (pat[j] == pat[i]) j++;", "C17"),
-              mut("fallback-off-by-one", "string.c", "while (j && pat[j] != pat[i]) j = lookup[j - 1];", "while (j && pat[j] != pat[i]) j = lookup[j];", "C17|pointer|bounds")])
+              mut("no-increment", "string.c", "if (pat[j] == pat[i]) j++;\n            lookup[i] = j;", "lookup[i] = j;\n            if (pat[j] == pat[i]) j++;", "C17")])
 M_STALE_I = mut("hit-does-not-advance", "string.c", "state->i = i + 1;\n                state->j = lookup[j];", "state->i = i;\n                state->j = lookup[j];", "C17")
 M_RESUME0 = mut("resume-state-zero", "string.c", "state->j = lookup[j];\n                return i - j;", "state->j = 0;\n                return i - j;", "C17")
 M_SKIP = mut("mismatch-skips", "string.c", "if (j > 0) {\n                j = lookup[j - 1];\n            } else {", "if (j > 0) {\n                j = 0; i++;\n            } else {", "C17")
@@ -38,9 +37,26 @@ for m in (1, 2, 3, 4):
          "kmp_next/kmp_seti, pattern of %d byte(s): from a fresh state (start index stored, or kmp_seti) and from the state left by a hit, kmp_next returns the first occurrence not before the resume point (find-all: overlapping ones included; replace-all/split: behind the previous one), -1 exactly when none is left, and a hit leaves exactly the resume state - so by induction every result sequence equals the reference search; never reads outside text, pattern or table" % m,
          "h_kmp_search", cls="bounded", bound="pattern of exactly %d byte(s), every text of 0..8 bytes, all byte contents, every start index 0..9" % m,
          mode="plain", src=["string.c"], harness=["str_kmp.c"], defines=["-DKMP_PATLEN=%d" % m], unwind=18,
-         functions=["kmp_next", "kmp_seti", "kmp_init"], timeout=300, tier="quick",
+         functions=["kmp_next", "kmp_seti", "kmp_init"], timeout=300, tier=("quick" if m <= 2 else "thorough"),
          assumes=["calloc model (str_kmp.c): zero-filled fresh block of exactly n*sz bytes, or NULL"],
          mutants=[M_STALE_I] + ([M_SKIP] if m >= 2 else []) + ([M_RESUME0] if m >= 2 else []) + ([KMP_IF] if m >= 4 else []))
+
+# ------------------------------------------------------------------ string.c: kmp_next, any text length (dfcc + loop contract)
+def loop(inv, assigns, dec, smap, lid="0"):
+    return {"loop_id": lid, "invariants": inv, "assigns": assigns, "decreases": dec, "symbol_map": smap}
+KN_MAP = "i,kmp_next::1::i;j,kmp_next::1::j;textlen,kmp_next::1::textlen;patlen,kmp_next::1::patlen;state,kmp_next::state"
+unit("str.kmp.next.safe",
+     "kmp_next on a text of ANY length (table 0 <= lookup[k] <= k as established by kmp_init): every read inside text, pattern and table, no overflow, terminates; returns -1 leaving the state untouched, or an index r >= resume point with r + patlen <= textlen, state->i == r + patlen and a valid state for the next call",
+     "h_kmp_next_safe", "kmp_next/kmp_next_c", cls="bounded", bound="pattern of 1..8 bytes (table fact written out per entry); text length, start index and all contents unbounded",
+     src=["string.c"], harness=["str_kmp_safe.c"],
+     loops={"kmp_next": [loop("j >= 0 && j < patlen && i >= j && i - j >= g_i0 - g_j0 && state->i == g_i0 && state->j == g_j0",
+                              "i, j, state->i, state->j", "2 * ((long)textlen - (long)i) + (long)j", KN_MAP)]},
+     loop_counts={"kmp_next": 1},
+     assumes=["input state built by the harness: typed malloc blocks of exactly textlen / patlen bytes and patlen table entries"],
+     mutants=[mut("off-by-one-scan", "string.c", "while (i < textlen) {\n        if (text[i] == pat[j]) {", "while (i <= textlen) {\n        if (text[i] == pat[j]) {", "pointer_dereference|bounds"),
+              mut("hit-test-late", "string.c", "if (j == patlen - 1) {", "if (j == patlen) {", "pointer_dereference|bounds|loop_invariant"),
+              dict(M_STALE_I, expect="postcondition"),
+              mut("fallback-off-by-one", "string.c", "                j = lookup[j - 1];\n            } else {\n                i++;", "                j = lookup[j];\n            } else {\n                i++;", "loop_invariant|decreases|pointer")])
 
 json.dump({"defaults": {"props": ["C17"], "mode": "dfcc", "timeout": 120, "object_bits": 8, "checks": CHECKS}, "units": units},
           open(os.path.join(V, "units", "C17_str.json"), "w"), indent=1)
